@@ -184,11 +184,10 @@ func (w *world) storeOp(r *xp.Req, resp *xp.Resp) {
 			resp.Err = "no such store"
 			return
 		}
-		var buf bytes.Buffer
-		for _, c := range r.Chunks {
-			buf.Write(c)
-		}
-		resp.Err = errStr(h.st.LoadSnapshot(io.NopCloser(&buf)))
+		// r.A > 0: the stream breaks with an error after A-1 complete chunks, the way
+		// a leader's refusal ("Gap found between versions") or a lost connection
+		// reaches the follower
+		resp.Err = errStr(h.st.LoadSnapshot(&chunkStream{chunks: r.Chunks, failAt: int(r.A)}))
 	default:
 		resp.Err = "unknown op " + r.Op
 	}
@@ -693,6 +692,9 @@ func (w *world) nodeOp(r *xp.Req, resp *xp.Resp) {
 		}
 	case "node-backup-delete":
 		resp.Err = errStr(n.DeleteBackup(uint32(r.N)))
+	case "node-restore-latest":
+		os.MkdirAll(r.Path, 0o755)
+		resp.Err = errStr(h.fs.RocksDBStore.RestoreFromLatestBackup(r.Path, r.Path))
 	case "node-restore":
 		os.MkdirAll(r.Path, 0o755)
 		resp.Err = errStr(h.fs.RocksDBStore.RestoreFromBackup(uint32(r.N), r.Path, r.Path))
@@ -874,3 +876,30 @@ func stress(n *consensus.RaftNode, r *xp.Req) (ops, panics int) {
 	qwg.Wait()
 	return int(nops), int(npanics)
 }
+
+// chunkStream feeds LoadSnapshot chunk by chunk and can break with an error
+// at a chunk boundary.
+type chunkStream struct {
+	chunks [][]byte
+	failAt int // 1-based: fail instead of delivering this chunk (0 = never)
+	i      int
+	cur    []byte
+}
+
+func (c *chunkStream) Read(p []byte) (int, error) {
+	if len(c.cur) == 0 {
+		if c.failAt > 0 && c.i+1 >= c.failAt {
+			return 0, fmt.Errorf("rpc error: code = Unknown desc = Gap found between versions")
+		}
+		if c.i >= len(c.chunks) {
+			return 0, io.EOF
+		}
+		c.cur = c.chunks[c.i]
+		c.i++
+	}
+	n := copy(p, c.cur)
+	c.cur = c.cur[n:]
+	return n, nil
+}
+
+func (c *chunkStream) Close() error { return nil }
